@@ -4,6 +4,10 @@
 //!   verif-sim replay <file>
 //!   verif-sim merge <PROPERTY> <tier> <seed> --out <evidence.json> <part>...
 //!
+//! `run` and `replay` are supervisors: the simulated runs execute in a child process, so a run
+//! that kills the process (allocation failure, stack overflow, abort) is located by bisection
+//! over run indices and reported as a violation with a seed replay, like any other.
+//!
 //! Exit codes: 0 = property held on everything explored, 1 = violation (a line
 //! `VIOLATION property=<id> replay=<path>` is printed), 2 = harness error.
 
@@ -12,10 +16,11 @@ mod engines;
 mod models;
 mod plan;
 
-use crate::core::runner::{run_batch, BatchCfg};
+use crate::core::runner::{run_batch, run_seed_for, BatchCfg};
 use crate::core::{Acc, Shared, Tier};
 use serde_json::{json, Value};
 use std::path::{Path, PathBuf};
+use std::process::Command;
 use std::time::{Duration, Instant};
 
 pub fn verif_dir() -> PathBuf {
@@ -23,9 +28,7 @@ pub fn verif_dir() -> PathBuf {
 }
 
 fn arg_value(args: &[String], name: &str) -> Option<String> {
-    args.iter()
-        .position(|a| a == name)
-        .and_then(|i| args.get(i + 1).cloned())
+    args.iter().position(|a| a == name).and_then(|i| args.get(i + 1).cloned())
 }
 
 fn harness_error(msg: &str) -> ! {
@@ -49,12 +52,7 @@ fn load_known(property: &str) -> Vec<(String, String)> {
         .unwrap_or_default()
         .into_iter()
         .filter(|f| f["property"].as_str() == Some(property))
-        .filter_map(|f| {
-            Some((
-                f["class"].as_str()?.to_string(),
-                f["what"].as_str().unwrap_or("").to_string(),
-            ))
-        })
+        .filter_map(|f| Some((f["class"].as_str()?.to_string(), f["what"].as_str().unwrap_or("").to_string())))
         .collect()
 }
 
@@ -64,11 +62,7 @@ pub fn confirm_replay(path: &Path, class: &str) -> bool {
         Ok(e) => e,
         Err(_) => return false,
     };
-    let out = std::process::Command::new(exe)
-        .arg("replay")
-        .arg(path)
-        .env("VERIF_CONFIRMING", "1")
-        .output();
+    let out = Command::new(exe).arg("replay").arg(path).env("VERIF_CONFIRMING", "1").output();
     match out {
         Ok(o) => {
             let s = String::from_utf8_lossy(&o.stdout);
@@ -78,7 +72,19 @@ pub fn confirm_replay(path: &Path, class: &str) -> bool {
     }
 }
 
-fn cmd_run(args: &[String]) -> ! {
+struct RunArgs {
+    property: String,
+    tier: Tier,
+    seed: u64,
+    profile: String,
+    share: f64,
+    scale: f64,
+    workers: usize,
+    only_engine: Option<String>,
+    part_out: Option<String>,
+}
+
+fn parse_run_args(args: &[String]) -> RunArgs {
     let property = args.get(0).cloned().unwrap_or_else(|| harness_error("missing property"));
     let tier = match arg_value(args, "--tier").as_deref().or(std::env::var("VERIF_TIER").ok().as_deref()) {
         Some("thorough") => Tier::Thorough,
@@ -88,147 +94,260 @@ fn cmd_run(args: &[String]) -> ! {
         .or_else(|| std::env::var("VERIF_SEED").ok())
         .and_then(|s| s.trim().parse::<u64>().ok())
         .unwrap_or(plan::DEFAULT_SEED);
-    let profile = arg_value(args, "--profile").unwrap_or_else(|| "release".into());
-    let share: f64 = arg_value(args, "--share").and_then(|s| s.parse().ok()).unwrap_or(1.0);
-    let scale: f64 = arg_value(args, "--scale")
-        .or_else(|| std::env::var("VERIF_SCALE").ok())
-        .and_then(|s| s.parse().ok())
-        .unwrap_or(1.0);
-    let workers: usize = arg_value(args, "--workers")
-        .or_else(|| std::env::var("VERIF_WORKERS").ok())
-        .and_then(|s| s.parse().ok())
-        .unwrap_or_else(|| std::thread::available_parallelism().map(|n| n.get()).unwrap_or(8));
-    let only_engine = arg_value(args, "--engine");
-    let part_out = arg_value(args, "--part-out");
-    std::env::set_var("VERIF_PROPERTY", &property);
+    RunArgs {
+        property,
+        tier,
+        seed,
+        profile: arg_value(args, "--profile").unwrap_or_else(|| "release".into()),
+        share: arg_value(args, "--share").and_then(|s| s.parse().ok()).unwrap_or(1.0),
+        scale: arg_value(args, "--scale").or_else(|| std::env::var("VERIF_SCALE").ok()).and_then(|s| s.parse().ok()).unwrap_or(1.0),
+        workers: arg_value(args, "--workers")
+            .or_else(|| std::env::var("VERIF_WORKERS").ok())
+            .and_then(|s| s.parse().ok())
+            .unwrap_or_else(|| std::thread::available_parallelism().map(|n| n.get()).unwrap_or(8)),
+        only_engine: arg_value(args, "--engine"),
+        part_out: arg_value(args, "--part-out"),
+    }
+}
 
-    let items = plan::plan(&property).unwrap_or_else(|| harness_error(&format!("no plan for property {}", property)));
-    let known = load_known(&property);
+fn runs_for(a: &RunArgs, it: &plan::PlanItem) -> u64 {
+    (((if a.tier == Tier::Quick { it.quick_runs } else { it.thorough_runs }) as f64 * a.share * a.scale).ceil() as u64).max(1)
+}
+
+/// Supervisor: one child process per engine; a child killed by a signal is bisected.
+fn cmd_run(args: &[String]) -> ! {
+    let a = parse_run_args(args);
+    std::env::set_var("VERIF_PROPERTY", &a.property);
+    let items = plan::plan(&a.property).unwrap_or_else(|| harness_error(&format!("no plan for property {}", a.property)));
+    let exe = std::env::current_exe().unwrap_or_else(|_| harness_error("no current_exe"));
+    eprintln!("[sim] property={} tier={} VERIF_SEED={} profile={} workers={}", a.property, a.tier.as_str(), a.seed, a.profile, a.workers);
     let t0 = Instant::now();
-    let mut engines_json = Vec::new();
+    let mut engines_json: Vec<Value> = Vec::new();
     let mut violations = 0u64;
-    let mut known_printed: Vec<String> = Vec::new();
-    // profiles explore different seeds
-    let base_seed = crate::core::mix(seed, crate::core::fnv(profile.as_bytes()));
-    eprintln!("[sim] property={} tier={} VERIF_SEED={} profile={} workers={}", property, tier.as_str(), seed, profile, workers);
-    for it in items {
-        if let Some(o) = &only_engine {
+    let mut rc = 0;
+    let tmp_dir = verif_dir().join("evidence/.parts");
+    let _ = std::fs::create_dir_all(&tmp_dir);
+    for it in &items {
+        if let Some(o) = &a.only_engine {
             if o != it.engine {
                 continue;
             }
         }
-        let engine = engines::get(it.engine).unwrap_or_else(|| harness_error(&format!("unknown engine {}", it.engine)));
-        let runs = ((if tier == Tier::Quick { it.quick_runs } else { it.thorough_runs }) as f64 * share * scale).ceil() as u64;
-        let cfg = BatchCfg {
-            base_seed,
-            tier,
-            runs: runs.max(1),
-            workers,
-            known_classes: known.iter().map(|k| k.0.clone()).collect(),
-            hang_budget: Duration::from_secs(if tier == Tier::Quick { 40 } else { 120 }),
-            want_samples: 2,
+        let runs = runs_for(&a, it);
+        let child_out = tmp_dir.join(format!("{}.{}.{}.engine.json", a.property, a.profile, it.engine));
+        let _ = std::fs::remove_file(&child_out);
+        let spawn = |start: u64, n: u64, bisect: bool| -> std::process::ExitStatus {
+            let mut c = Command::new(&exe);
+            c.arg("run-engine")
+                .arg(&a.property)
+                .arg("--engine")
+                .arg(it.engine)
+                .arg("--tier")
+                .arg(a.tier.as_str())
+                .arg("--seed")
+                .arg(a.seed.to_string())
+                .arg("--profile")
+                .arg(&a.profile)
+                .arg("--workers")
+                .arg(a.workers.to_string())
+                .arg("--start")
+                .arg(start.to_string())
+                .arg("--runs")
+                .arg(n.to_string());
+            if bisect {
+                c.arg("--bisect");
+            } else {
+                c.arg("--engine-out").arg(&child_out);
+            }
+            c.status().unwrap_or_else(|e| harness_error(&format!("cannot spawn child: {}", e)))
         };
-        let res = run_batch(engine.as_ref(), &cfg, Shared::new());
-        eprintln!(
-            "[sim]   engine={} runs={} ops={} nontrivial={} states>={} wall={:.1}s digest={:016x}",
-            res.engine,
-            res.runs,
-            res.acc.ops,
-            res.nontrivial_runs,
-            res.acc.shared.states.count(),
-            res.wall_s,
-            res.digest
-        );
-        println!("DIGEST engine={} profile={} {:016x}", res.engine, profile, res.digest);
-        // one line per listed finding (a finding may match several classes)
-        for (pattern, what) in &known {
-            let mut hits = 0u64;
-            let mut classes: Vec<&String> = Vec::new();
-            for (class, (count, _seed)) in &res.known_hits {
-                if crate::core::class_is_known(&[pattern.clone()], class) {
-                    hits += count;
-                    classes.push(class);
+        let st = spawn(0, runs, false);
+        match st.code() {
+            Some(0) => {}
+            Some(1) => {
+                violations += 1;
+                rc = 1;
+            }
+            Some(c) => {
+                eprintln!("[sim] child for engine {} exited with code {}", it.engine, c);
+                rc = 2;
+            }
+            None => {
+                // killed by a signal: locate the run by bisection over run indices
+                eprintln!("[sim] the process running engine {} was killed ({:?}); bisecting {} runs", it.engine, st, runs);
+                let (mut lo, mut hi) = (0u64, runs);
+                while hi - lo > 1 {
+                    let mid = lo + (hi - lo) / 2;
+                    let s = spawn(lo, mid - lo, true);
+                    if s.code().is_none() {
+                        hi = mid;
+                    } else {
+                        lo = mid;
+                    }
+                }
+                let base_seed = crate::core::mix(a.seed, crate::core::fnv(a.profile.as_bytes()));
+                let run_seed = run_seed_for(base_seed, it.engine, lo);
+                let dir = verif_dir().join("replays");
+                let _ = std::fs::create_dir_all(&dir);
+                let path = dir.join(format!("{}-{}-abort-{:016x}.json", a.property, it.engine, run_seed));
+                let class = format!("{}/process-abort", it.engine);
+                let doc = json!({
+                    "property": a.property, "engine": it.engine, "kind": "seed", "run_seed": run_seed, "run_index": lo,
+                    "tier": a.tier.as_str(), "profile": a.profile, "expected_class": class,
+                    "note": "this run kills the process (allocation failure / stack overflow / abort) instead of returning; replay regenerates the run from run_seed",
+                });
+                let _ = std::fs::write(&path, serde_json::to_string_pretty(&doc).unwrap());
+                if confirm_replay(&path, &class) {
+                    eprintln!("[sim] run {} (seed {:#x}) of engine {} kills the process", lo, run_seed, it.engine);
+                    println!("VIOLATION property={} replay={}", a.property, path.display());
+                    violations += 1;
+                    rc = if rc == 2 { 2 } else { 1 };
+                } else {
+                    eprintln!("[sim] could not reproduce the process death in isolation (run index {}); harness error", lo);
+                    rc = 2;
                 }
             }
-            if hits > 0 && !known_printed.contains(pattern) {
-                println!("KNOWN-FINDING: property={} finding={} hits={} matched_classes={} -- {}", property, pattern, hits, classes.len(), what);
-                known_printed.push(pattern.clone());
+        }
+        if let Ok(t) = std::fs::read_to_string(&child_out) {
+            if let Ok(v) = serde_json::from_str::<Value>(&t) {
+                engines_json.push(v);
             }
         }
-        engines_json.push(crate::core::evidence::batch_to_json(&res));
-        if let Some(found) = res.found {
-            violations += 1;
-            eprintln!(
-                "[sim] violation in run {} (seed {:#x}): {} -- {}",
-                found.run_index, found.run_seed, found.violation.class, found.violation.detail
-            );
-            let (min_case, st) = crate::core::shrink::minimise(
-                engine.as_ref(),
-                &found.case,
-                &found.violation.class,
-                found.violation.step,
-                Duration::from_secs(if tier == Tier::Quick { 20 } else { 60 }),
-            );
-            eprintln!("[sim] minimised {} -> {} ops in {} executions", st.ops_before, st.ops_after, st.executions);
-            // re-run the minimised case to get its detail text
-            let mut acc = Acc::new(Shared::new());
-            acc.begin_run(0);
-            let detail = engine
-                .run_case(&min_case, &mut acc)
-                .ok()
-                .and_then(|o| o.violation)
-                .map(|v| v.detail)
-                .unwrap_or_else(|| found.violation.detail.clone());
-            let dir = verif_dir().join("replays");
-            let _ = std::fs::create_dir_all(&dir);
-            let path = dir.join(format!("{}-{}-{:016x}.json", property, it.engine, found.run_seed));
-            let doc = json!({
-                "property": property,
-                "engine": it.engine,
-                "kind": "case",
-                "run_seed": found.run_seed,
-                "verif_seed": seed,
-                "profile": profile,
-                "expected_class": found.violation.class,
-                "detail": detail,
-                "original_ops": st.ops_before,
-                "case": min_case,
-            });
-            if std::fs::write(&path, serde_json::to_string_pretty(&doc).unwrap()).is_err() {
-                harness_error("cannot write replay file");
-            }
-            if confirm_replay(&path, &found.violation.class) {
-                eprintln!("[sim] {}", detail);
-                println!("VIOLATION property={} replay={}", property, path.display());
-            } else {
-                // the minimised case must reproduce in a fresh process; otherwise something in
-                // the harness is not deterministic: that is a harness error, not a verdict.
-                harness_error(&format!("replay {} did not reproduce class {} in a fresh process", path.display(), found.violation.class));
-            }
+        let _ = std::fs::remove_file(&child_out);
+        if rc != 0 {
             break;
         }
     }
     let part = json!({
-        "property_id": property,
-        "tier": tier.as_str(),
-        "seed": seed,
-        "profile": profile,
-        "engines": engines_json,
-        "violations": violations,
-        "wall_s": t0.elapsed().as_secs_f64(),
+        "property_id": a.property, "tier": a.tier.as_str(), "seed": a.seed, "profile": a.profile,
+        "engines": engines_json, "violations": violations, "wall_s": t0.elapsed().as_secs_f64(),
     });
-    if let Some(p) = part_out {
-        if let Some(parent) = Path::new(&p).parent() {
+    if let Some(p) = &a.part_out {
+        if let Some(parent) = Path::new(p).parent() {
             let _ = std::fs::create_dir_all(parent);
         }
-        if std::fs::write(&p, serde_json::to_string_pretty(&part).unwrap()).is_err() {
+        if std::fs::write(p, serde_json::to_string_pretty(&part).unwrap()).is_err() {
             harness_error("cannot write evidence part");
         }
     }
-    std::process::exit(if violations > 0 { 1 } else { 0 });
+    std::process::exit(rc);
 }
 
+/// Child: one engine, one range of run indices.
+fn cmd_run_engine(args: &[String]) -> ! {
+    let a = parse_run_args(args);
+    std::env::set_var("VERIF_PROPERTY", &a.property);
+    let engine_name = a.only_engine.clone().unwrap_or_else(|| harness_error("run-engine needs --engine"));
+    let start: u64 = arg_value(args, "--start").and_then(|s| s.parse().ok()).unwrap_or(0);
+    let runs: u64 = arg_value(args, "--runs").and_then(|s| s.parse().ok()).unwrap_or(1);
+    let bisect = args.iter().any(|x| x == "--bisect");
+    let engine_out = arg_value(args, "--engine-out");
+    let engine = engines::get(&engine_name).unwrap_or_else(|| harness_error(&format!("unknown engine {}", engine_name)));
+    let known = load_known(&a.property);
+    // profiles explore different seeds
+    let base_seed = crate::core::mix(a.seed, crate::core::fnv(a.profile.as_bytes()));
+    let cfg = BatchCfg {
+        base_seed,
+        tier: a.tier,
+        start,
+        runs,
+        workers: a.workers,
+        known_classes: known.iter().map(|k| k.0.clone()).collect(),
+        hang_budget: Duration::from_secs(if a.tier == Tier::Quick { 40 } else { 120 }),
+        want_samples: if bisect { 0 } else { 2 },
+    };
+    let res = run_batch(engine.as_ref(), &cfg, Shared::new());
+    if bisect {
+        std::process::exit(0);
+    }
+    eprintln!(
+        "[sim]   engine={} runs={} ops={} nontrivial={} states>={} wall={:.1}s digest={:016x}",
+        res.engine,
+        res.runs,
+        res.acc.ops,
+        res.nontrivial_runs,
+        res.acc.shared.states.count(),
+        res.wall_s,
+        res.digest
+    );
+    println!("DIGEST engine={} profile={} {:016x}", res.engine, a.profile, res.digest);
+    // one line per listed finding (a finding may match several classes)
+    for (pattern, what) in &known {
+        let mut hits = 0u64;
+        let mut classes = 0usize;
+        for (class, (count, _seed)) in &res.known_hits {
+            if crate::core::class_is_known(&[pattern.clone()], class) {
+                hits += count;
+                classes += 1;
+            }
+        }
+        if hits > 0 {
+            println!("KNOWN-FINDING: property={} finding={} hits={} matched_classes={} -- {}", a.property, pattern, hits, classes, what);
+        }
+    }
+    if let Some(p) = &engine_out {
+        let _ = std::fs::write(p, serde_json::to_string(&crate::core::evidence::batch_to_json(&res)).unwrap());
+    }
+    let mut rc = 0;
+    if let Some(found) = res.found {
+        rc = 1;
+        eprintln!("[sim] violation in run {} (seed {:#x}): {} -- {}", found.run_index, found.run_seed, found.violation.class, found.violation.detail);
+        // write the unminimised case first; minimisation runs in its own process (a shrink
+        // candidate may kill the process) and persists every improvement to the same file
+        let dir = verif_dir().join("replays");
+        let _ = std::fs::create_dir_all(&dir);
+        let path = dir.join(format!("{}-{}-{:016x}.json", a.property, engine_name, found.run_seed));
+        let n_ops = found.case["ops"].as_array().map(|x| x.len()).unwrap_or(0);
+        let doc = json!({
+            "property": a.property, "engine": engine_name, "kind": "case", "run_seed": found.run_seed, "verif_seed": a.seed,
+            "profile": a.profile, "tier": a.tier.as_str(), "expected_class": found.violation.class, "detail": found.violation.detail,
+            "fail_step": found.violation.step, "original_ops": n_ops, "case": found.case,
+        });
+        if std::fs::write(&path, serde_json::to_string_pretty(&doc).unwrap()).is_err() {
+            harness_error("cannot write replay file");
+        }
+        let exe = std::env::current_exe().unwrap_or_else(|_| harness_error("no current_exe"));
+        let st = Command::new(exe).arg("shrink").arg(&path).arg("--budget").arg(if a.tier == Tier::Quick { "20" } else { "60" }).status();
+        if !matches!(st.as_ref().map(|s| s.code()), Ok(Some(0))) {
+            eprintln!("[sim] the minimiser did not finish cleanly ({:?}); keeping the best case found so far", st);
+        }
+        let detail = std::fs::read_to_string(&path).ok().and_then(|t| serde_json::from_str::<Value>(&t).ok()).and_then(|d| d["detail"].as_str().map(|s| s.to_string())).unwrap_or_default();
+        if confirm_replay(&path, &found.violation.class) {
+            eprintln!("[sim] {}", detail);
+            println!("VIOLATION property={} replay={}", a.property, path.display());
+        } else {
+            // the minimised case must reproduce in a fresh process; otherwise something in the
+            // harness is not deterministic: that is a harness error, not a verdict.
+            harness_error(&format!("replay {} did not reproduce class {} in a fresh process", path.display(), found.violation.class));
+        }
+    }
+    std::process::exit(rc);
+}
+
+/// Supervisor for replays: a child that dies of a signal is a reproduction of a process-abort.
 fn cmd_replay(args: &[String]) -> ! {
+    let path = args.get(0).cloned().unwrap_or_else(|| harness_error("missing replay file"));
+    let txt = std::fs::read_to_string(&path).unwrap_or_else(|e| harness_error(&format!("cannot read {}: {}", path, e)));
+    let doc: Value = serde_json::from_str(&txt).unwrap_or_else(|e| harness_error(&format!("bad replay json: {}", e)));
+    let exe = std::env::current_exe().unwrap_or_else(|_| harness_error("no current_exe"));
+    let out = Command::new(exe).arg("replay-child").args(args).output().unwrap_or_else(|e| harness_error(&format!("cannot spawn replay child: {}", e)));
+    print!("{}", String::from_utf8_lossy(&out.stdout));
+    eprint!("{}", String::from_utf8_lossy(&out.stderr));
+    match out.status.code() {
+        Some(c) => std::process::exit(c),
+        None => {
+            let class = format!("{}/process-abort", doc["engine"].as_str().unwrap_or("?"));
+            println!("REPLAY-VIOLATION class={}", class);
+            println!("detail: the replayed run killed the process ({:?})", out.status);
+            if std::env::var("VERIF_CONFIRMING").is_err() {
+                println!("VIOLATION property={} replay={}", doc["property"].as_str().unwrap_or("UNKNOWN"), path);
+            }
+            std::process::exit(1);
+        }
+    }
+}
+
+fn cmd_replay_child(args: &[String]) -> ! {
     let path = args.get(0).cloned().unwrap_or_else(|| harness_error("missing replay file"));
     let txt = std::fs::read_to_string(&path).unwrap_or_else(|e| harness_error(&format!("cannot read {}: {}", path, e)));
     let doc: Value = serde_json::from_str(&txt).unwrap_or_else(|e| harness_error(&format!("bad replay json: {}", e)));
@@ -238,13 +357,18 @@ fn cmd_replay(args: &[String]) -> ! {
     let kind = doc["kind"].as_str().unwrap_or("case").to_string();
     let tier = if doc["tier"].as_str() == Some("thorough") { Tier::Thorough } else { Tier::Quick };
     let timeout = Duration::from_secs(arg_value(args, "--timeout").and_then(|s| s.parse().ok()).unwrap_or(90));
+    std::env::set_var("VERIF_PROPERTY", &property);
     let (tx, rx) = std::sync::mpsc::channel();
     let doc2 = doc.clone();
+    let (property2, expected2) = (property.clone(), expected.clone());
     std::thread::Builder::new()
         .stack_size(64 << 20)
         .spawn(move || {
             let engine = engines::get(&engine_name).unwrap_or_else(|| harness_error("unknown engine in replay"));
             let mut acc = Acc::new(Shared::new());
+            // recorded findings stay skipped in a replay, unless the replay is about one
+            let known: Vec<String> = load_known(&property2).into_iter().map(|k| k.0).filter(|k| !crate::core::class_is_known(&[k.clone()], &expected2)).collect();
+            acc.known = std::sync::Arc::new(known);
             acc.begin_run(0);
             let out = if kind == "seed" {
                 let seed = doc2["run_seed"].as_u64().unwrap_or_else(|| harness_error("seed replay lacks run_seed"));
@@ -280,6 +404,40 @@ fn cmd_replay(args: &[String]) -> ! {
             std::process::exit(1);
         }
     }
+}
+
+/// Minimise the case in a replay file in place (every improvement is persisted at once).
+fn cmd_shrink(args: &[String]) -> ! {
+    let path = args.get(0).cloned().unwrap_or_else(|| harness_error("missing replay file"));
+    let budget = Duration::from_secs(arg_value(args, "--budget").and_then(|s| s.parse().ok()).unwrap_or(20));
+    let txt = std::fs::read_to_string(&path).unwrap_or_else(|e| harness_error(&format!("cannot read {}: {}", path, e)));
+    let mut doc: Value = serde_json::from_str(&txt).unwrap_or_else(|e| harness_error(&format!("bad replay json: {}", e)));
+    let engine_name = doc["engine"].as_str().unwrap_or_else(|| harness_error("replay lacks engine")).to_string();
+    std::env::set_var("VERIF_PROPERTY", doc["property"].as_str().unwrap_or("UNKNOWN"));
+    let class = doc["expected_class"].as_str().unwrap_or("").to_string();
+    let fail_step = doc["fail_step"].as_u64().unwrap_or(u64::MAX >> 1) as usize;
+    let engine = engines::get(&engine_name).unwrap_or_else(|| harness_error("unknown engine"));
+    let known: Vec<String> = load_known(doc["property"].as_str().unwrap_or("")).into_iter().map(|k| k.0).collect();
+    let case = doc["case"].clone();
+    let before = case["ops"].as_array().map(|x| x.len()).unwrap_or(0);
+    let path2 = path.clone();
+    let mut doc_w = doc.clone();
+    let mut persist = |best: &Value| {
+        doc_w["case"] = best.clone();
+        let _ = std::fs::write(&path2, serde_json::to_string_pretty(&doc_w).unwrap());
+    };
+    let (min_case, st) = crate::core::shrink::minimise(engine.as_ref(), &case, &class, fail_step, budget, &known, &mut persist);
+    eprintln!("[sim] minimised {} -> {} ops in {} executions", before, st.ops_after, st.executions);
+    let mut acc = Acc::new(Shared::new());
+    acc.known = std::sync::Arc::new(known.iter().filter(|k| !crate::core::class_is_known(&[(*k).clone()], &class)).cloned().collect());
+    acc.begin_run(0);
+    if let Some(v) = engine.run_case(&min_case, &mut acc).ok().and_then(|o| o.violation) {
+        doc["detail"] = json!(v.detail);
+        doc["fail_step"] = json!(v.step);
+    }
+    doc["case"] = min_case;
+    let _ = std::fs::write(&path, serde_json::to_string_pretty(&doc).unwrap());
+    std::process::exit(0);
 }
 
 fn cmd_merge(args: &[String]) -> ! {
@@ -326,8 +484,11 @@ fn main() {
     }
     match args[0].as_str() {
         "run" => cmd_run(&args[1..]),
+        "run-engine" => cmd_run_engine(&args[1..]),
         "replay" => cmd_replay(&args[1..]),
+        "replay-child" => cmd_replay_child(&args[1..]),
         "merge" => cmd_merge(&args[1..]),
+        "shrink" => cmd_shrink(&args[1..]),
         "list" => {
             for p in plan::PROPERTIES {
                 println!("{}", p);
